@@ -31,6 +31,16 @@ def shape_from_image(v):
     sx2 = float((((xx - xc) ** 2) * v).sum() / m00)
     sy2 = float((((yy - yc) ** 2) * v).sum() / m00)
     sxy = float(((xx - xc) * (yy - yc) * v).sum() / m00)
+    if not all(map(math.isfinite, (sx2, sy2, sxy))) \
+            or max(abs(sx2), abs(sy2), abs(sxy)) > 1e140:
+        # products of such moments overflow: no reference shape (callers
+        # treat the flag as "ambiguous" and skip the shape columns)
+        for k in ('sigx2', 'sigy2', 'sigxy', 'semimajor', 'semiminor',
+                  'orientation', 'eccentricity', 'elongation',
+                  'ellipticity', 'fwhm', 'cxx', 'cxy', 'cyy'):
+            out[k] = float('nan')
+        out['flags'].update({'det_sign_ambiguous', 'overflow'})
+        return out
     det = sx2 * sy2 - sxy * sxy
     tr = sx2 + sy2
     scale = max(tr * tr, 1e-300)
